@@ -89,6 +89,10 @@ func (g *pgen) assignable(dst, src Ty) bool {
 		g.excluded("typed-map-to-untyped-map")
 		return false
 	}
+	if ok && g.cfg.Exclude["struct-to-typed-map"] && g.structToTypedMap(dst, src, 0) {
+		g.excluded("struct-to-typed-map")
+		return false
+	}
 	if ok && g.cfg.NoStructToMap && g.structToMap(dst, src, 0) {
 		if g.cfg.Excluded != nil {
 			g.cfg.Excluded["struct-to-untyped-map"]++
@@ -155,6 +159,28 @@ func (g *pgen) typedMapToMap(dst, src Ty, depth int) bool {
 		for _, f := range df {
 			for _, o := range sf {
 				if o.Name == f.Name && f.T != o.T && g.typedMapToMap(f.T, o.T, depth+1) {
+					return true
+				}
+			}
+		}
+	}
+	return false
+}
+
+// structToTypedMap: does converting src to dst turn a struct into a typed
+// map anywhere (only possible inside arrays or struct fields)?
+func (g *pgen) structToTypedMap(dst, src Ty, depth int) bool {
+	if depth > 6 {
+		return false
+	}
+	if dst.Map > 0 && src.Map == 0 && len(g.structFields(src.Base)) > 0 {
+		return true
+	}
+	df, sf := g.structFields(dst.Base), g.structFields(src.Base)
+	if len(df) > 0 && len(sf) > 0 {
+		for _, f := range df {
+			for _, o := range sf {
+				if o.Name == f.Name && f.T != o.T && g.structToTypedMap(f.T, o.T, depth+1) {
 					return true
 				}
 			}
